@@ -28,7 +28,7 @@ def rand_T(rng, small=False):
 def run(ctx):
     from shapepy import IntegrateShape, Primitive
     rng, drv = ctx.rng, ctx.drv
-    n = 30 if ctx.quick else 1200
+    n = 30 if ctx.quick else 400
     for it in range(n):
         if it % 3 == 2:
             (va, vb), unit0 = impl.scaled_family(ctx, 2, scales=(F(1),), pinv=0.25)     # integer coordinates: exact after tiny scales
